@@ -861,6 +861,41 @@ def r11(ctx, R):
         raise AnalysisError("C07.R11: no finding-collecting loop found")
 
 
+# ------------------------------------------------------------------ R13
+def r13(ctx, R):
+    """Every scope of the file is checked: the loop of the aggregator reaches each
+    per-scope checker for every element (no `continue`/`break`/filter in front of
+    a checker call, no checker call under a condition on the scope)."""
+    R.rule("C07.R13", "the aggregator hands every scope to every per-scope checker: no scope is filtered out before a checker call", floor=3, confirmed=4)
+    agg = aggregator(ctx)
+    CHECKERS = {"check_use", "check_definitions", "get_diagnostics", "check_valid_parent"}
+    loops = [lp for lp in ctx.m.walk_own(agg.node) if isinstance(lp, ast.For) and any(isinstance(c.func, ast.Attribute) and c.func.attr in CHECKERS for s_ in lp.body for c in calls_in(s_))]
+    if not loops:
+        raise AnalysisError("C07.R13: the aggregator's loop over scopes was not found")
+    for lp in loops:
+        tv = lp.target.id if isinstance(lp.target, ast.Name) else None
+        if isinstance(lp.iter, (ast.GeneratorExp, ast.ListComp)) and any(g_.ifs for g_ in lp.iter.generators):
+            R.violation("C07.R13", agg.short, key(agg, lp)[:80], loc(agg, lp), "the scopes are filtered before they are checked")
+        for i, st in enumerate(lp.body):
+            cs = [c for c in calls_in(st) if isinstance(c.func, ast.Attribute) and c.func.attr in CHECKERS and isinstance(c.func.value, ast.Name) and c.func.value.id == tv]
+            for c in cs:
+                k = f"{c.func.attr} reached for every scope"
+                early = [s_ for s_ in lp.body[:i] if any(isinstance(y, (ast.Continue, ast.Break, ast.Return)) for y in ast.walk(s_))]
+                # the checker call itself may be the test of an `if` (check_valid_parent); it must not sit inside a branch
+                nested = False
+                p_ = ctx.m.parent.get(c)
+                while p_ is not None and p_ is not lp:
+                    if isinstance(p_, (ast.If, ast.Try, ast.While, ast.For)) and not (isinstance(p_, ast.If) and any(x is c for x in ast.walk(p_.test))):
+                        nested = True
+                    p_ = ctx.m.parent.get(p_)
+                if early:
+                    R.violation("C07.R13", agg.short, k, loc(agg, early[0]), f"`{unparse(early[0]).split(chr(10))[0][:70]} ...` can skip a scope before {c.func.attr}() runs on it: defects inside the skipped scopes (declarations, USE statements, argument lists of that construct) are never reported")
+                elif nested:
+                    R.violation("C07.R13", agg.short, k, loc(agg, c), f"{c.func.attr}() is only called under a condition on the scope: defects in the other scopes are never reported")
+                else:
+                    R.ok("C07.R13", agg.short, k, loc(agg, c))
+
+
 def run(ctx, R):
     r1(ctx, R)
     r2(ctx, R)
@@ -876,3 +911,4 @@ def run(ctx, R):
     from .c05 import r6 as _type_name_lookup
 
     _type_name_lookup(ctx, R, rule="C07.R12")
+    r13(ctx, R)
